@@ -24,7 +24,8 @@ import (
 //         K<a>  the oldest blocked Dial(<a>) call succeeds
 //         F<a>  the oldest blocked Dial(<a>) call fails
 //         D<k>  Disconnect(id) of the (k mod open)-th oldest open connection
-//         Z     Disconnect(id) once more for the most recently disconnected id
+//         R<k>  Remove(id) of the (k mod open)-th oldest open connection (closed, never replaced)
+//         Z     Disconnect(id) once more for the most recently disconnected / removed id
 //         C     (target 1 only) Disconnect(id) of the one request that is in flight - a cancel; with
 //               target 1 requests exist one at a time and the id of the live one is the number of
 //               GetNewAddress calls so far.  A canceled request ends silently at its next step.
@@ -358,7 +359,7 @@ func c18RunCm(head []string, evs []string) (obs string) {
 				}
 				tag = "F"
 			}
-		case len(e) >= 2 && e[0] == 'D':
+		case len(e) >= 2 && (e[0] == 'D' || e[0] == 'R'):
 			k, err := strconv.Atoi(e[1:])
 			if err != nil || k < 0 {
 				break
@@ -376,8 +377,15 @@ func c18RunCm(head []string, evs []string) (obs string) {
 				break
 			}
 			c := open[k%len(open)]
-			f.cm.Disconnect(c.id)
 			f.lastDisc, f.hasDisc = c.id, true
+			if e[0] == 'R' {
+				f.cm.Remove(c.id)
+				okw = f.wait(func() bool { return f.closes > c0 }, c18CmBound)
+				f.cm.Disconnect(1 << 62) // barrier: the handler has finished the Remove
+				tag = "R"
+				break
+			}
+			f.cm.Disconnect(c.id)
 			okw = f.wait(func() bool { return f.closes > c0 && f.getCalls > g0 }, c18CmBound)
 			tag = "D"
 		case e == "Z":
@@ -476,6 +484,16 @@ func c18GenCm(c *Ctx) error {
 		}
 		evs = append(evs, script(5+c.Rng.Intn(20), 4, 0.1, 0.1, 0.0)...)
 		emit(t, evs, "refusals")
+	}
+	// Remove (retry = false; no caller in the server, public API): the connection is closed for good
+	for i, n := 0, c.Pick(40, 800); i < n; i++ {
+		t := 1 + c.Rng.Intn(8)
+		evs := script(8+c.Rng.Intn(30), 2+c.Rng.Intn(3), 0.2, 0.1, 0.05)
+		for k, m := 0, 1+c.Rng.Intn(3); k < m; k++ {
+			j := c.Rng.Intn(len(evs) + 1)
+			evs = append(evs[:j:j], append([]string{fmt.Sprintf("R%d", c.Rng.Intn(8))}, evs[j:]...)...)
+		}
+		emit(t, evs, "remove")
 	}
 	// cancel: Disconnect of the request in flight (target 1), while it waits for an address or dials
 	for i, n := 0, c.Pick(60, 1200); i < n; i++ {
